@@ -2304,6 +2304,35 @@ impl<'a, C: Crypto> TransportRunner<'a, C> {
                     session.decode_remaining(&self.crypto, &mut packet.header, pb)?;
                 set_payload(packet, payload_range);
 
+                // A group data message which reaches the (ephemeral) group session its sender
+                // still has here was authenticated just now, like one that does not find such
+                // a session. It has to go through the sender's group counter window as well:
+                // otherwise its counter is forgotten once that session is gone, and a later
+                // copy of the message is accepted - and acted upon - a second time.
+                #[cfg(feature = "groups")]
+                {
+                    let group_sender = (matches!(
+                        session.get_session_mode(),
+                        session::SessionMode::Group { .. }
+                    ) && !packet.header.plain.is_control_msg())
+                    .then(|| (session.get_local_fabric_idx(), session.get_peer_node_id()));
+
+                    if let Some((fab_idx, Some(src_nodeid))) = group_sender {
+                        if !state.sessions.group_ctr_post_recv(
+                            fab_idx,
+                            src_nodeid,
+                            packet.header.plain.ctr,
+                        ) {
+                            return Err(ErrorCode::Duplicate.into());
+                        }
+                    }
+                }
+
+                // See above why `unwrap` is safe
+                let session = unwrap!(state
+                    .sessions
+                    .get_for_rx(&packet.peer, &packet.header.plain));
+
                 return session.post_recv(&packet.header);
             }
 
